@@ -4,4 +4,6 @@ from ..rules import rxr
 
 def check(ctx, rep):
     rxr.rx_7_8(ctx, rep)
+    from ..rules import rxr as _rx13
+    _rx13.rx_13(ctx, rep)       # the lexical patterns are blind to the spelling of line breaks
     rep.note('Not decided: token-stream equality on all valid programs (layout logic: indent columns, bracket depth).')
